@@ -520,4 +520,313 @@ theorem readsAs_lookup {mode : LineMode} {fs : FS} {p : Str} {ws : List Spec.Wor
     (Wcoll.search_path_of_plain p ok.plain ok.noColon) ok.fsok
   rw [lookup_filesOf mode fs paths p hp (by rw [e3, h2]), e1, h3]
 
+/-! ## Part 4: the domain as ONE decidable predicate, and the composition -/
+open PdshVerif.Opt.Wcoll (hostPart isspaceC)
+
+def hostTextB (t : Str) : Bool :=
+  match t with
+  | c :: _ => c != '-' && c != '^' && c != '/' && !isspaceC c
+  | [] => false
+
+theorem hostTextB_sound {t : Str} (h : hostTextB t = true) : HostText t := by
+  cases t with
+  | nil => simp [hostTextB] at h
+  | cons c cs =>
+    simp only [hostTextB, Bool.and_eq_true, bne_iff_ne, ne_eq, Bool.not_eq_true'] at h
+    exact ⟨c, cs, rfl, h.1.1.1, h.1.1.2, h.1.2, h.2⟩
+
+def xTextB (t : Str) : Bool :=
+  match t with
+  | c :: _ => c != '^' && c != '/' && !isspaceC c
+  | [] => false
+
+theorem xTextB_sound {t : Str} (h : xTextB t = true) : XText t := by
+  cases t with
+  | nil => simp [xTextB] at h
+  | cons c cs =>
+    simp only [xTextB, Bool.and_eq_true, bne_iff_ne, ne_eq, Bool.not_eq_true'] at h
+    exact ⟨c, cs, rfl, h.1.1, h.1.2, h.2⟩
+
+instance (e : EL) : Decidable e.Good := by unfold EL.Good; exact inferInstance
+instance (x : Str) : Decidable (SmallName x) := by unfold SmallName; exact inferInstance
+instance (B : Nat) (e : EL) : Decidable (e.HiBelow B) := by unfold EL.HiBelow; exact inferInstance
+
+/-- C02's `EntryOk`, decided -/
+def entryOkB (cfg : Cfg) (s : Str) (names : List Str) : Bool :=
+  match create cfg s with
+  | .ok t => decide ((pushListE EL.new t).Good ∧ (∀ r ∈ (pushListE EL.new t).ranges, r.ShiftFits) ∧
+      (pushListE EL.new t).hosts.length ≤ t.nhosts.toNat ∧
+      names = (pushListE EL.new t).hosts ∧ ∀ x ∈ names, SmallName x)
+  | _ => false
+
+theorem entryOkB_sound {cfg : Cfg} {s : Str} {names : List Str} (h : entryOkB cfg s names = true) :
+    EntryOk cfg s names := by
+  unfold entryOkB at h
+  split at h
+  · rename_i t ht
+    exact ⟨t, ht, of_decide_eq_true h⟩
+  · cases h
+
+def oneBracketB : Spec.Word → Bool
+  | .plain _ => true
+  | .br _ _ _ none => true
+  | .br _ _ _ (some _) => false
+
+theorem oneBracketB_sound {w : Spec.Word} (h : oneBracketB w = true) : OneBracket w := by
+  cases w with
+  | plain n => trivial
+  | br pre g1 mid g2 =>
+    cases g2 with
+    | none => trivial
+    | some p => simp [oneBracketB] at h
+
+def wordsFineB (cfg : Cfg) (ws : List Spec.Word) : Bool := ws.all fun w => w.WF && decide (wordDom cfg w)
+
+theorem wordsFineB_sound {cfg : Cfg} {ws : List Spec.Word} (h : wordsFineB cfg ws = true) : WordsFine cfg ws := by
+  intro w hw
+  have := (List.all_eq_true.mp h) w hw
+  simpa using this
+
+/-- the domain hypotheses of one segment: C01's (`WF`, `wordDom`), C02's (`HostText`, `XText`, `EntryOk`,
+    `OneBracket`, `badre`) and C10's (`readsAsB`) -/
+def segDomB (cfg : Cfg) (mode : LineMode) (fs : FS) (badre : Str → Bool) : Seg → Bool
+  | .cw (.tgt w) => w.WF && decide (wordDom cfg w) && hostTextB (Spec.renderWord w) &&
+      decide (hostPart (Spec.renderWord w) = some (Spec.renderWord w)) && oneBracketB w
+  | .cw (.xcl w) => xTextB (Spec.renderWord w) && entryOkB cfg (Spec.renderWord w) w.expand₁
+  | .cw (.re _ p) => !badre p
+  | .tfile p ws => readsAsB mode fs p ws && wordsFineB cfg ws && ws.all oneBracketB
+  | .xfile p ws => readsAsB mode fs p ws && wordsFineB cfg ws && decide ((xfileText cfg ws).length < 4095) &&
+      entryOkB cfg (xfileText cfg ws) (Spec.expand₁ ws)
+
+theorem segDomB_sound {cfg : Cfg} {mode : LineMode} {fs : FS} {rematch : Str → Str → Option Bool}
+    {badre : Str → Bool} (paths : List Str) :
+    ∀ (s : Seg), segDomB cfg mode fs badre s = true → (∀ p ∈ s.paths, p ∈ paths) →
+    SegOk cfg { files := filesOf mode fs paths, rematch := rematch, badre := badre } s ∧ SegFine cfg s ∧
+    (∀ w ∈ s.words, OneBracket w) ∧ (∀ p ∈ s.ent cfg, EntryOk cfg p.1 p.2)
+  | .cw (.tgt w), h, _ => by
+    simp only [segDomB, Bool.and_eq_true, decide_eq_true_eq] at h
+    obtain ⟨⟨⟨⟨h1, h2⟩, h3⟩, h4⟩, h5⟩ := h
+    refine ⟨⟨h1, h2, hostTextB_sound h3, h4⟩, ?_, ?_, by simp [Seg.ent]⟩
+    · intro x hx
+      simp only [Seg.words, List.mem_singleton] at hx
+      subst hx; exact ⟨h1, h2⟩
+    · intro x hx
+      simp only [Seg.words, List.mem_singleton] at hx
+      subst hx; exact oneBracketB_sound h5
+  | .cw (.xcl w), h, _ => by
+    simp only [segDomB, Bool.and_eq_true] at h
+    refine ⟨xTextB_sound h.1, by intro x hx; simp [Seg.words] at hx, by intro x hx; simp [Seg.words] at hx, ?_⟩
+    intro p hp
+    simp only [Seg.ent, List.mem_singleton] at hp
+    subst hp; exact entryOkB_sound h.2
+  | .cw (.re ex p), h, _ => by
+    simp only [segDomB, Bool.not_eq_true'] at h
+    exact ⟨h, by intro x hx; simp [Seg.words] at hx, by intro x hx; simp [Seg.words] at hx, by simp [Seg.ent]⟩
+  | .tfile p ws, h, hp => by
+    simp only [segDomB, Bool.and_eq_true, List.all_eq_true] at h
+    obtain ⟨⟨h1, h2⟩, h3⟩ := h
+    exact ⟨⟨readsAs_lookup h1 paths (hp p (by simp [Seg.paths])), wordsFineB_sound h2⟩, wordsFineB_sound h2,
+      fun w hw => oneBracketB_sound (h3 w hw), by simp [Seg.ent]⟩
+  | .xfile p ws, h, hp => by
+    simp only [segDomB, Bool.and_eq_true, decide_eq_true_eq] at h
+    obtain ⟨⟨⟨h1, h2⟩, h3⟩, h4⟩ := h
+    refine ⟨⟨readsAs_lookup h1 paths (hp p (by simp [Seg.paths])), wordsFineB_sound h2, h3⟩,
+      by intro x hx; simp [Seg.words] at hx, by intro x hx; simp [Seg.words] at hx, ?_⟩
+    intro q hq
+    simp only [Seg.ent, List.mem_singleton] at hq
+    subst hq; exact entryOkB_sound h4
+
+/-- the words the target list is made of: those of the target segments, files inlined where they stand;
+    WCOLL's iff there is no target segment -/
+def tgtWords (segs : List Seg) (wenv : Option (Str × List Spec.Word)) : List Spec.Word :=
+  if segs.any Seg.isTgt then segs.flatMap Seg.words
+  else match wenv with
+    | some (_, ws) => ws
+    | none => []
+
+/-- the names a segment excludes -/
+def Seg.xnames : Seg → List Str
+  | .cw (.xcl w) => w.expand₁
+  | .xfile _ ws => Spec.expand₁ ws
+  | _ => []
+
+def allPaths (segs : List Seg) (wenv : Option (Str × List Spec.Word)) : List Str :=
+  segs.flatMap Seg.paths ++ (match wenv with | some (p, _) => [p] | none => [])
+
+/-- C02's environment, its file table filled by C10's reader -/
+def envOf (mode : LineMode) (fs : FS) (rematch : Str → Str → Option Bool) (badre : Str → Bool)
+    (segs : List Seg) (wenv : Option (Str × List Spec.Word)) : Env :=
+  { files := filesOf mode fs (allPaths segs wenv), rematch := rematch, badre := badre }
+
+/-- `opt->wcoll` before the exclusions are applied -/
+def finalEL (cfg : Cfg) (segs : List Seg) (wenv : Option (Str × List Spec.Word)) : Option EL :=
+  match (segs.foldl (step cfg) {}).wcoll, wenv with
+  | none, some (_, ws) => some (fileEL cfg ws)
+  | o, _ => o
+
+/-- THE DOMAIN of `target_list_end_to_end`, one decidable predicate -/
+def targetDomain (cfg : Cfg) (mode : LineMode) (fs : FS) (rematch : Str → Str → Option Bool)
+    (badre : Str → Bool) (segs : List Seg) (wenv : Option (Str × List Spec.Word)) : Bool :=
+  -- every segment is in the domain of the theorem that handles it
+  segs.all (segDomB cfg mode fs badre) &&
+  -- there is a source of targets; WCOLL, if it is consulted, is a readable file of words
+  (segs.any Seg.isTgt ||
+    match wenv with
+    | some (p, ws) => readsAsB mode fs p ws && wordsFineB cfg ws && ws.all oneBracketB
+    | none => false) &&
+  -- every first-level name is a plain name C01's `create` takes (second expansion)
+  (((tgtWords segs wenv).flatMap Spec.Word.expand₂).all fun h =>
+    (Spec.Word.plain h).WF && decide (wordDom cfg (Spec.Word.plain h))) &&
+  -- the regex oracle answers for every pattern and target
+  ((segs.flatMap Seg.reg).all fun p =>
+    ((tgtWords segs wenv).flatMap Spec.Word.expand₂).all fun h => (rematch p.2 h).isSome) &&
+  -- C02's `low`: numbers below 10^15 (a hypothesis on the list, not on the words)
+  (match finalEL cfg segs wenv with
+   | some e => decide (e.HiBelow (10 ^ 15))
+   | none => true)
+
+theorem expand₁_eq_expand₂ : ∀ (ws : List Spec.Word), (∀ w ∈ ws, OneBracket w) →
+    Spec.expand₁ ws = ws.flatMap Spec.Word.expand₂
+  | [], _ => rfl
+  | w :: ws, h => by
+    have ih := expand₁_eq_expand₂ ws fun x hx => h x (by simp [hx])
+    unfold Spec.expand₁ at ih ⊢
+    simp only [List.flatMap_cons, ih, expand₂_oneBracket w (h w (by simp))]
+
+theorem segs_tgt_expand₂ : ∀ (segs : List Seg), (∀ s ∈ segs, ∀ w ∈ s.words, OneBracket w) →
+    segs.flatMap Seg.tgt = (segs.flatMap Seg.words).flatMap Spec.Word.expand₂
+  | [], _ => rfl
+  | s :: segs, h => by
+    have ih := segs_tgt_expand₂ segs fun x hx => h x (by simp [hx])
+    have h1 : s.tgt = s.words.flatMap Spec.Word.expand₂ := by
+      have ho := h s (by simp)
+      match s, ho with
+      | .cw (.tgt w), ho =>
+        simp only [Seg.tgt, Seg.words, List.flatMap_cons, List.flatMap_nil, List.append_nil]
+        exact (expand₂_oneBracket w (ho w (by simp [Seg.words]))).symm
+      | .cw (.xcl _), _ => rfl
+      | .cw (.re _ _), _ => rfl
+      | .tfile _ ws, ho => exact expand₁_eq_expand₂ ws ho
+      | .xfile _ _, _ => rfl
+    simp only [List.flatMap_cons, List.flatMap_append, ih, h1]
+
+theorem ent_names (cfg : Cfg) : ∀ (segs : List Seg),
+    (segs.flatMap (Seg.ent cfg)).flatMap (·.2) = segs.flatMap Seg.xnames
+  | [] => rfl
+  | s :: segs => by
+    have ih := ent_names cfg segs
+    simp only [List.flatMap_cons, List.flatMap_append, ih]
+    congr 1
+    cases s with
+    | cw w => cases w <;> simp [Seg.ent, Seg.xnames]
+    | tfile _ _ => simp [Seg.ent, Seg.xnames]
+    | xfile _ _ => simp [Seg.ent, Seg.xnames]
+
+/-- the formula: the targets in source order, minus every excluded name, filtered by every regex -/
+def targetSpec (env : Env) (segs : List Seg) (wenv : Option (Str × List Spec.Word)) : List Str :=
+  ((((tgtWords segs wenv).flatMap Spec.Word.expand₂).filter fun h => !(segs.flatMap Seg.xnames).contains h).filter
+    (keepAll env (segs.flatMap Seg.reg)))
+
+theorem targetList_correct (cfg : Cfg) (hD1 : cfg.fixDeleteAll = true) (hD17 : cfg.fixIterSuffix = true)
+    (hD19 : cfg.fixRemoveDepth = true) (mode : LineMode) (fs : FS) (rematch : Str → Str → Option Bool)
+    (badre : Str → Bool) (segs : List Seg) (wenv : Option (Str × List Spec.Word))
+    (hdom : targetDomain cfg mode fs rematch badre segs wenv = true) :
+    targetList cfg (envOf mode fs rematch badre segs wenv) (wenv.map (·.1)) (segs.map Seg.text) =
+      .ok (targetSpec (envOf mode fs rematch badre segs wenv) segs wenv) := by
+  unfold targetDomain at hdom
+  simp only [Bool.and_eq_true, List.all_eq_true, decide_eq_true_eq] at hdom
+  obtain ⟨⟨⟨⟨d1, d2⟩, d3⟩, d4⟩, d5⟩ := hdom
+  -- the segments, one by one
+  have hseg := fun s (hs : s ∈ segs) =>
+    segDomB_sound (cfg := cfg) (mode := mode) (fs := fs) (rematch := rematch) (badre := badre)
+      (allPaths segs wenv) s (d1 s hs)
+      (fun p hp => List.mem_append_left _ (List.mem_flatMap.mpr ⟨s, hs, hp⟩))
+  have hst := argsProcess_segs cfg (envOf mode fs rematch badre segs wenv) segs {}
+    (fun s hs => (hseg s hs).1)
+  obtain ⟨i1, i2, i3, i4⟩ := foldl_step_spec cfg segs {} [] (by simp [WInv]) (fun s hs => (hseg s hs).2.1)
+  simp only [List.nil_append, List.append_nil, Option.isSome_none, Bool.false_or] at i1 i2 i3 i4
+  have hone : ∀ s ∈ segs, ∀ w ∈ s.words, OneBracket w := fun s hs => (hseg s hs).2.2.1
+  -- the exclusion entries (the stack is walked newest first) and the filters
+  let es : List (Str × List Str) := (segs.flatMap (Seg.ent cfg)).reverse
+  have hes : ∀ p ∈ es, EntryOk cfg p.1 p.2 := by
+    intro p hp
+    obtain ⟨s, hs, hps⟩ := List.mem_flatMap.mp (List.mem_reverse.mp hp)
+    exact (hseg s hs).2.2.2 p hps
+  have hesm : es.map (·.1) = ((segs.flatMap (Seg.ent cfg)).map (·.1)).reverse := by
+    simp [es, List.map_reverse]
+  -- the list the later stages start from, in both cases
+  have key : ∀ (e : EL), finalEL cfg segs wenv = some e →
+      WInv (some e) ((tgtWords segs wenv).flatMap Spec.Word.expand₂) →
+      finish cfg (envOf mode fs rematch badre segs wenv)
+        { wcoll := some e, excl := (segs.foldl (step cfg) {}).excl, regex := (segs.foldl (step cfg) {}).regex } =
+      .ok (targetSpec (envOf mode fs rematch badre segs wenv) segs wenv) := by
+    intro e hfe hI
+    have hlow : e.HiBelow (10 ^ 15) := by
+      rw [hfe] at d5; simpa using d5
+    rw [i2, i3, ← hesm]
+    rw [finish_correct cfg hD1 hD17 hD19 _ e _ es _ hI hlow hes
+      (fun p hp h hh => d4 p (List.mem_reverse.mp hp) h hh)
+      (fun h hh => by simpa using d3 h hh)]
+    unfold targetSpec
+    congr 1
+    have hf1 : ((tgtWords segs wenv).flatMap Spec.Word.expand₂).filter (fun h => !(es.flatMap (·.2)).contains h) =
+        ((tgtWords segs wenv).flatMap Spec.Word.expand₂).filter (fun h => !(segs.flatMap Seg.xnames).contains h) := by
+      apply List.filter_congr
+      intro h _
+      congr 1
+      rw [Bool.eq_iff_iff, ← ent_names cfg segs]
+      simp [es, List.mem_flatMap]
+    rw [hf1]
+    apply List.filter_congr
+    intro h _
+    simp [keepAll, List.all_reverse]
+  unfold targetList
+  rw [hst]
+  simp only
+  cases hany : segs.any Seg.isTgt with
+  | true =>
+    rw [hany] at i4
+    obtain ⟨e, he⟩ := Option.isSome_iff_exists.mp i4
+    have hfe : finalEL cfg segs wenv = some e := by
+      unfold finalEL; rw [he]
+    have hT : segs.flatMap Seg.tgt = (tgtWords segs wenv).flatMap Spec.Word.expand₂ := by
+      rw [segs_tgt_expand₂ segs hone]; simp [tgtWords, hany]
+    rw [he] at i1
+    rw [hT] at i1
+    have := key e hfe i1
+    rw [he]
+    simp only
+    rw [← this]
+    congr 1
+    cases hs : segs.foldl (step cfg) {} with
+    | mk w x r => rw [hs] at he; simp only at he; rw [he]
+  | false =>
+    rw [hany] at i4
+    have hnone : (segs.foldl (step cfg) {}).wcoll = none := by
+      cases h : (segs.foldl (step cfg) {}).wcoll with
+      | none => rfl
+      | some e => rw [h] at i4; simp at i4
+    simp only [hany, Bool.false_or] at d2
+    match wenv, d2, key, d3, d4, d5 with
+    | some (p, ws), d2, key, _, _, _ =>
+      simp only [Bool.and_eq_true, List.all_eq_true] at d2
+      obtain ⟨⟨r1, r2⟩, r3⟩ := d2
+      have hfine := wordsFineB_sound r2
+      have hlk := readsAs_lookup r1 (allPaths segs (some (p, ws))) (by simp [allPaths])
+      have hfe : finalEL cfg segs (some (p, ws)) = some (fileEL cfg ws) := by
+        unfold finalEL; rw [hnone]
+      obtain ⟨g, hh, ids, its⟩ := assembleE_spec cfg ws EL.new new_good hfine
+      have hI : WInv (some (fileEL cfg ws)) ((tgtWords segs (some (p, ws))).flatMap Spec.Word.expand₂) := by
+        refine ⟨g, ids new_ids, by rw [fileEL, its]; rfl, ?_⟩
+        rw [(fileEL_spec cfg ws hfine).2, expand₁_eq_expand₂ ws fun w hw => oneBracketB_sound (r3 w hw)]
+        simp [tgtWords, hany]
+      have := key _ hfe hI
+      rw [hnone]
+      simp only [Option.map_some, envOf] at hlk ⊢
+      rw [hlk]
+      simp only
+      rw [readHl_words cfg ws EL.new hfine]
+      simp only
+      exact this
+
 end PdshVerif.Opt.Targets
